@@ -41,6 +41,7 @@ Peek ==
         /\ op' = [name |-> "peek", ok |-> FALSE, got |-> Len(wire)]
   /\ UNCHANGED <<nsent, closed, np, delivered, eof, under>>
 
+Rel(b, avail) == IF b = 0 THEN "zero" ELSE IF b < avail THEN "lt" ELSE IF b = avail THEN "eq" ELSE "gt"
 Cap(avail, b) == IF under = 0 THEN Min(b, avail) ELSE Min(Min(b, avail), under)
 
 Read(b) ==
@@ -49,17 +50,19 @@ Read(b) ==
         /\ LET red == Min(b, PeekSize - np) IN
              /\ delivered' = delivered \o SubSeq(peeked, np + 1, np + red)
              /\ np' = np + red
-             /\ op' = [name |-> "read", b |-> b, n |-> red, from |-> "peeked", eof |-> FALSE]
+             /\ op' = [name |-> "read", b |-> b, n |-> red, from |-> "peeked", eof |-> FALSE,
+                       avail |-> PeekSize - np, rel |-> Rel(b, PeekSize - np), left |-> PeekSize - np - red]
         /\ UNCHANGED <<wire, eof>>
      \/ /\ np = PeekSize /\ wire # <<>>
         /\ LET n == Cap(Len(wire), b) IN
              /\ delivered' = delivered \o SubSeq(wire, 1, n)
              /\ wire' = SubSeq(wire, n + 1, Len(wire))
-             /\ op' = [name |-> "read", b |-> b, n |-> n, from |-> "conn", eof |-> FALSE]
+             /\ op' = [name |-> "read", b |-> b, n |-> n, from |-> "conn", eof |-> FALSE,
+                       avail |-> Len(wire), rel |-> Rel(b, Len(wire)), left |-> Len(wire) - n]
         /\ UNCHANGED <<np, eof>>
      \/ /\ np = PeekSize /\ wire = <<>> /\ closed
         /\ eof' = TRUE
-        /\ op' = [name |-> "read", b |-> b, n |-> 0, from |-> "conn", eof |-> TRUE]
+        /\ op' = [name |-> "read", b |-> b, n |-> 0, from |-> "conn", eof |-> TRUE, avail |-> 0, rel |-> "any", left |-> 0]
         /\ UNCHANGED <<np, wire, delivered>>
   /\ UNCHANGED <<nsent, closed, made, peeked, under>>
 
